@@ -22,7 +22,10 @@ VF_WORLD_LIST(VF_INST)
 
 std::string glue_encode(const generic_compiler& c, const std::string& policy) {
     std::ostringstream os;
-    yorel::yomm2::generator::encode_dispatch_data(c, policy, os);
+    if (policy.empty())
+        yorel::yomm2::generator::encode_dispatch_data(c, os); // the overload for the default policy
+    else
+        yorel::yomm2::generator::encode_dispatch_data(c, policy, os);
     return os.str();
 }
 
